@@ -67,7 +67,11 @@ def gen_plan(rng, opts=None):
                  reorder_outputs=rng.choice([0, 0, 30, 100]) if o.get("reorder", True) else 0,
                  swap=rng.choice([0, 0, 0, 10]) if o.get("swap", False) else 0,
                  exec="runner" if rng.randrange(100) < o["exec_pct"] else "model")
-    return dict(job=job, cluster=cluster, knobs=knobs)
+    plan = dict(job=job, cluster=cluster, knobs=knobs)
+    if o.get("rerun") and rng.randrange(100) < o["rerun"]:
+        # the judged run is the SECOND run of this job with one precompute() result (a repetition, a retry, another cluster shape)
+        plan["rerun"] = J.gen_cluster_plan(rng, job, hmax=o["hmax"], wmax=o["wmax"])
+    return plan
 
 
 class ModelBridge:
@@ -369,16 +373,16 @@ def run(plan, ch, want_log=False):
         return dict(harness=NAME, viol=[dict(prop="C03", cls="spin", detail="scheduler.graph.precompute did not return", sig={})] +
                     ([dict(prop="C10", cls="lowered_job_can_not_be_scheduled", detail="precompute did not return", sig={})] if ginfo is not None else []),
                     probes={}, fired={}, digest="precompute-spin", steps=0, simtime=0.0, stats={}, nontrivial={}, end="spin/precompute")
-    cnt = {"n": 0, "calls": -1}
+    cnt = {"n": 0, "calls": -1, "b": b}
     orig = impl.has_computable
 
     def hc(state):
-        if b.calls == cnt["calls"]:
+        if cnt["b"].calls == cnt["calls"]:
             cnt["n"] += 1
             if cnt["n"] > 1000:
                 raise Spin()
         else:
-            cnt["calls"], cnt["n"] = b.calls, 0
+            cnt["calls"], cnt["n"] = cnt["b"].calls, 0
         return orig(state)
     impl.has_computable = hc
     # a loop inside the scheduler that never comes back to the controller loop can not be seen by the counter above:
@@ -393,6 +397,20 @@ def run(plan, ch, want_log=False):
         old_alarm = signal.signal(signal.SIGALRM, _alarm)
         signal.setitimer(signal.ITIMER_REAL, WALL_SPIN_S)
     viol = []
+    if plan.get("rerun"):
+        # warm-up: a complete earlier run of the same job with the same Preschedule object (nothing of it is judged; what it may
+        # leave behind in the Preschedule is what the judged run below starts from)
+        b0 = ModelBridge(ch, job, jp, J.build_env(plan["rerun"]), dict(knobs, swap=0))
+        cnt["b"] = b0
+        try:
+            impl.run(job, b0, pre)
+            b.probes["rerun_after_complete_run"] += 1
+        except Spin:
+            viol.append(("C03", "spin", dict(warmup=True), dict(inverted=False, swapped=False)))
+        except Exception:
+            b.probes["rerun_after_aborted_run"] += 1
+        cnt.update(b=b, n=0, calls=-1)
+        simtasks.reset()
     D = sum(len(t.definition.output_schema) for t in job.tasks.values())
     H, R = len(b.store), len(job.ext_outputs)
     try:
@@ -462,7 +480,7 @@ def run(plan, ch, want_log=False):
     except Exception as e:
         tb = traceback.format_exc().strip().split("\n")
         where = next((l.strip() for l in reversed(tb) if "/cascade/" in l), tb[-3].strip() if len(tb) > 2 else "")
-        own = "/verif/" in where or "harness" in where
+        own = "/verif/" in where or "harness" in where or not any("/cascade/" in l for l in tb)
         viol.append(("HARNESS" if own else "C03", "bookkeeping_exception", (repr(e)[:160], where[:160]),
                      dict(inverted=bool(b.inverted_tasks), swapped=b.swapped, exc=type(e).__name__)))
         never = sorted(set(job.tasks) - set(b.dispatched))
